@@ -14,7 +14,12 @@ Stage 4 (system level): after new + cp + commit under each layout the directory 
 
 Unicode case mapping (str::to_lowercase/to_uppercase, char::to_lowercase) is external to
 rocfl: the harness returns what the Rust standard library computes and both the model
-and the oracle take it as input.  Digests come from Python's hashlib.
+and the oracle take it as input.  The theorems assume four facts about it
+(Layout.unicode_ok, part of inputs_ok); they are evaluated on every generated pair and a
+pair that fails them is reported (exit 1), never skipped.  Digests come from hashlib.
+
+No known finding of C11 is left (seven classes repaired in /repo): every disagreement
+between the code and the documents is a VIOLATION.
 """
 import hashlib
 import json
@@ -54,13 +59,12 @@ KNOWN_KEYS = {
     "0006": ["extensionName", "delimiter"],
     "0007": ["extensionName", "delimiter", "tupleSize", "numberOfTuples", "zeroPadding", "reverseObjectRoot"],
 }
-# known-finding classes by bit of Corr.CheckLayout new_mask / path_mask.  (Numbers above 32,
-# shortObjectRoot with a fully used digest, 0003 without tuples and 0007 control characters were
-# known until the fixes d1aca14, a91c61b, e1de1bb, 970818d: those inputs are still generated and
-# must now pass.)
-SLUG_NEW = {4: "c11-cfg-0007-defaults", 5: "c11-cfg-array"}
-SLUG_MAP = {3: "c11-casefold-index"}
-WF_NEW = 64      # bit 6 of new_mask: the strings of the configuration are well-formed
+# Formerly known classes, all repaired in /repo: numbers above 32 (d1aca14), shortObjectRoot with a
+# fully used digest (a91c61b), 0003 without tuples (e1de1bb), 0007 control characters (970818d), the
+# case-folding byte index of 0006 (91d5aeb), 0007 without delimiter / config.json (dec6d3f), array
+# configurations (8478633).  Their inputs are generated as before and MUST PASS.
+WF_NEW = 16      # bit 4 of new_mask: the strings of the configuration are well-formed
+CASE_OK = 8      # bit 3 of path_mask: Layout.case_info_ok (the assumed facts about Unicode case mapping)
 
 
 class Invalid(str):
@@ -434,7 +438,7 @@ def parse_masks(v):
     return [int(x) for x in body.split(";")] if body else []
 
 
-IMPORTS = ["Base.Bytes", "Model.Layout", "Model.LayoutSpec", "Model.KnownC11", "Corr.CheckLayout"]
+IMPORTS = ["Base.Bytes", "Model.Layout", "Model.LayoutSpec", "Corr.CheckLayout"]
 
 
 _SHOWN = [0]
@@ -473,9 +477,25 @@ def id_category(s):
     return cats or ["plain"]
 
 
+def casefold_regression(k, cfgv, s, info):
+    """pairs of the repaired class c11-casefold-index (fix 91d5aeb): layout 0006, a delimiter with case, an id
+    in which char::to_lowercase changes a UTF-8 length or str::to_lowercase is not the per-character mapping"""
+    if k != "0006" or not isinstance(cfgv, dict) or not isinstance(cfgv.get("delimiter"), str):
+        return False
+    d = cfgv["delimiter"]
+    if d.lower() == d.upper():
+        return False
+    return (any(len(c.encode("utf-8")) != len(lo.encode("utf-8")) for c, lo in info["chars"])
+            or info["lower"] != "".join(lo for _, lo in info["chars"]))
+
+
 def regression_classes(k, cfgv):
     """which formerly known configuration class (now must-pass) a generated configuration belongs to"""
     out = []
+    if isinstance(cfgv, list):
+        out.append("array")                                        # fix 8478633
+    if k == "0007" and (cfgv is None or (isinstance(cfgv, dict) and "delimiter" not in cfgv)):
+        out.append("0007_defaults")                                # fix dec6d3f
     if k in ("0003", "0004") and isinstance(cfgv, dict):
         ts, nt = cfgv.get("tupleSize", 3), cfgv.get("numberOfTuples", 3)
         if all(isinstance(v, int) and not isinstance(v, bool) for v in (ts, nt)):
@@ -489,7 +509,7 @@ def regression_classes(k, cfgv):
 
 # --------------------------------------------------------------------------- function level
 
-def function_level(ctx, vh, known_ids, stats):
+def function_level(ctx, vh, stats):
     cases = gen_cases(ctx)
     lines = [{"ext": EXTS[k][1], "config": config_text(cfgv), "ids": ids, "case": True, "strs": config_strings(cfgv)}
              for k, cfgv, ids in cases]
@@ -523,16 +543,10 @@ def function_level(ctx, vh, known_ids, stats):
             common.corr_break(ctx, "Corr.CheckLayout: driver inputs not well-formed (strings of the configuration)", {"input": inp, "mask": m})
             continue
         if det and not oracle_ok:
-            slugs = [SLUG_NEW[bit] for bit in SLUG_NEW if m & (1 << bit)]
-            slugs = [s for s in slugs if s in known_ids]
-            if slugs:
-                ctx.known_hit(slugs[0])
-                stats["known_new"] += 1
-            else:
-                ctx.violation("impl-violation", {"input": inp, "observed": {"new": o["new"], "msg": o.get("msg")},
-                              "expected": "the extension documents %s this configuration (LayoutSpec.parse); accepted parameters must equal the documented ones" %
-                                          ("forbid" if o["new"] == "ok" else "allow")})
-                continue
+            ctx.violation("impl-violation", {"input": inp, "observed": {"new": o["new"], "msg": o.get("msg")},
+                          "expected": "the extension documents %s this configuration (LayoutSpec.parse); accepted parameters must equal the documented ones" %
+                                      ("forbid" if o["new"] == "ok" else "allow")})
+            continue
         if not model_ok:
             common.corr_break(ctx, "Corr.CheckLayout new_mask (model Layout.new vs layout.rs StorageLayout::new)",
                               {"input": inp, "observed": {"new": o["new"], "msg": o.get("msg")}, "mask": m})
@@ -552,23 +566,24 @@ def function_level(ctx, vh, known_ids, stats):
                 stats["regress_0003_zero_tuples_pairs"] += 1
             if k == "0007" and any(ord(ch) < 32 for ch in s):
                 stats["regress_0007_control_pairs_" + ("ok" if "ok" in po else "panic")] += 1
+            if casefold_regression(k, cfgv, s, info):
+                stats["regress_casefold_pairs_" + ("ok" if "ok" in po else "panic")] += 1
+            if "0007_defaults" in regression_classes(k, cfgv):
+                stats["regress_0007_defaults_pairs"] += 1
             ctx.count(("map", k, text, s, "ok" in po), nontrivial=True,
                       sample={"ext": k, "config": text, "id": s, "observed": po, "mask": pm})
             inp = {"level": "map_object_id", "ext": EXTS[k][1], "config": text, "id": s, "digest": d}
-            if not pm & 4:
-                common.corr_break(ctx, "Corr.CheckLayout: driver inputs not well-formed (UTF-8 characters / digest)", {"input": inp, "mask": pm})
-                continue
             if not pm & 2:
-                slugs = [SLUG_MAP[bit] for bit in SLUG_MAP if pm & (1 << bit)]
-                slugs = [x for x in slugs if x in known_ids]
-                if slugs:
-                    ctx.known_hit(slugs[0])
-                    stats["known_map"] += 1
-                else:
-                    ctx.violation("impl-violation", {"input": inp, "observed": po,
-                                  "expected": "the object root path the extension document prescribes (LayoutSpec.map); (model, documents) = %s"
-                                              % show_paths(k, cfgv, infos, s, info, d)})
-                    continue
+                # decided by the direct oracle first: a real disagreement is a violation whatever the side conditions say
+                ctx.violation("impl-violation", {"input": inp, "observed": po,
+                              "expected": "the object root path the extension document prescribes (LayoutSpec.map); (model, documents) = %s"
+                                          % show_paths(k, cfgv, infos, s, info, d)})
+                continue
+            if not pm & 4:
+                what = ("the case information returned by the Rust standard library does not obey Layout.unicode_ok (an assumption of C11_map_is_spec)"
+                        if not pm & CASE_OK else "driver inputs not well-formed (UTF-8 characters / digest)")
+                common.corr_break(ctx, "Corr.CheckLayout: " + what, {"input": inp, "mask": pm, "case_info": info})
+                continue
             if not pm & 1:
                 common.corr_break(ctx, "Corr.CheckLayout path_mask (model Layout.map vs layout.rs map_object_id)",
                                   {"input": inp, "observed": po, "mask": pm, "model_and_documents": show_paths(k, cfgv, infos, s, info, d)})
@@ -602,6 +617,14 @@ SYS_LAYOUTS = [   # (extension, configuration, ids that are also valid relative 
      ["urn:", "urn:\u00e9", "\u00fcber", "urn:a\u0001b", "\u001f", "ns:12\t"]),     # control characters: fix 970818d
     ("0007", {"extensionName": n("0007"), "delimiter": "edu/", "tupleSize": 4, "numberOfTuples": 2, "zeroPadding": "right", "reverseObjectRoot": True},
      ["https://institution.EDU/3448793", "https://institution.edu/abc/edu/f8.05v", "abc123", "namespace:12887296"], ["x.Edu/", "edu/\u00e9"]),
+    # fix dec6d3f: 0007 without config.json and without delimiter = the documented defaults (":", 3 x 3, left, not reversed)
+    ("0007", None, ["ns:12", "urn:uuid:12345", "abc123", "plain"], ["urn:", "urn:\u00e9"]),
+    ("0007", {"extensionName": n("0007"), "tupleSize": 2}, ["ns:12", "urn:uuid:12345"], ["x:"]),
+    # fix 91d5aeb: ids in which lower-casing changes a UTF-8 length or depends on the position in a word
+    ("0006", {"extensionName": n("0006"), "delimiter": "edu/"},
+     [KELVIN + "edu/kx", IDOT + "edu/xyz", "x" + KELVIN + "EDU/" + IDOT, KELVIN + "no-delimiter"], [IDOT + "edu/", KELVIN + "Edu/"]),
+    ("0006", {"extensionName": n("0006"), "delimiter": SIGMA + "/"}, ["a" + SIGMA + "/sx", "a\u03c3/lower", "a\u03c2/final"], ["a" + SIGMA + "/"]),
+    ("0006", {"extensionName": n("0006"), "delimiter": "\u00df"}, ["a" + SHARP_S + "b", "a\u00dfc"], ["a" + SHARP_S]),
 ]
 FORBIDDEN = [
     ("0004", {"extensionName": n("0004"), "tupleSize": 3, "numberOfTuples": 0}),
@@ -623,10 +646,16 @@ FORBIDDEN = [
     # fix a91c61b: shortObjectRoot with the whole digest in the tuples
     ("0004", {"extensionName": n("0004"), "digestAlgorithm": "md5", "tupleSize": 2, "numberOfTuples": 16, "shortObjectRoot": True}),
     ("0004", {"extensionName": n("0004"), "tupleSize": 4, "numberOfTuples": 16, "shortObjectRoot": True}),
+    # fix 8478633: a configuration that is a JSON array
+    ("0004", [n("0004"), "md5", 2, 2]),
+    ("0002", [n("0002")]),
+    ("0006", [n("0006"), ":"]),
+    ("0007", [n("0007"), ":", 2, 2, "right", True]),
+    ("0003", [n("0003")]),
 ]
 
 
-def system_level(ctx, vh, known_ids, stats):
+def system_level(ctx, vh, stats):
     s = hist.Session(vh)
     terms, meta = [], []
     try:
@@ -739,12 +768,10 @@ def system_level(ctx, vh, known_ids, stats):
                 ctx.violation("impl-violation", {"input": inp, "observed": {"directories": dirs, "map_object_id": fpath},
                               "expected": "the object occupies exactly the directory map_object_id returns"})
             elif not pm & 2:
-                slugs = [SLUG_MAP[bit] for bit in SLUG_MAP if pm & (1 << bit) and SLUG_MAP[bit] in known_ids]
-                if slugs:
-                    ctx.known_hit(slugs[0])
-                else:
-                    ctx.violation("impl-violation", {"input": inp, "observed": dirs,
-                                  "expected": "the directory the extension document prescribes (LayoutSpec.map)"})
+                ctx.violation("impl-violation", {"input": inp, "observed": dirs,
+                              "expected": "the directory the extension document prescribes (LayoutSpec.map)"})
+            elif not pm & 4:
+                common.corr_break(ctx, "Corr.CheckLayout at system level: inputs_ok fails (UTF-8 / digest / Layout.unicode_ok)", {"input": inp, "mask": pm})
             elif not pm & 1:
                 common.corr_break(ctx, "Corr.CheckLayout path_mask at system level", {"input": inp, "observed": dirs, "mask": pm})
     if mi != len(meta):
@@ -759,16 +786,16 @@ def run(ctx):
     ok, log = common.coq_make(["theories/Corr/CheckLayout.vo"])
     if not ok:
         raise common.BuildError("Corr/CheckLayout.v does not build:\n" + log[-3000:])
-    known_ids = {k["id"] for k in ctx.known}
     import collections
     stats = collections.Counter()
-    function_level(ctx, vh, known_ids, stats)
-    system_level(ctx, vh, known_ids, stats)
+    function_level(ctx, vh, stats)
+    system_level(ctx, vh, stats)
     ctx.coverage["traces_validated_against_impl"] = stats["pairs"] + stats["configs"] + stats["sys_objects"]
     ctx.coverage["distribution"] = dict(sorted(stats.items()))
-    ctx.assumptions.append("Unicode case mapping (str::to_lowercase, str::to_uppercase, char::to_lowercase) is taken from the Rust standard library through the harness; it is an input of model and oracle, not modelled")
+    ctx.assumptions.append("Unicode case mapping (str::to_lowercase, str::to_uppercase, char::to_lowercase) is taken from the Rust standard library through the harness; it is an input of model and oracle, not modelled; the four facts about it that C11_map_is_spec assumes for 0006/0007 (Layout.unicode_ok: lower-case forms are not empty; a delimiter without case consists of characters that are their own lower-case forms and that no lower-case form of another character begins with; ASCII strings lower-case as ASCII; str::to_lowercase is the per-character mapping except for non-ASCII sigma forms) are evaluated on every generated pair and a failing pair is reported")
+    ctx.assumptions.append("the documents only say that the delimiter of 0006/0007 is case-insensitive; LayoutSpec.v reads: a stretch of the id is the delimiter when both have the same lower-case form (per-character lower-casing); the character-by-character reading gives the same result unless a lower-case form has two characters (U+0130), C11_case_readings_agree")
     ctx.assumptions.append("hex digests of ids come from Python hashlib (md5, sha1, sha256, sha512, sha512/256, blake2b-160/256/384/512); the model takes the digest as an argument and checks its length/alphabet")
     ctx.assumptions.append("config.json is compared from its parsed JSON value (object keys the struct knows, positional array form, or 'not a JSON object'); duplicate keys are not generated")
     ctx.assumptions.append("correspondence uses the debug build (a usize overflow would be a panic); since the bound 32 is tested before tupleSize*numberOfTuples is computed the product cannot overflow, and C11_config_release_is_debug proves that the model's release arithmetic (new false) gives the same results")
     return common.finish_with_proof(ctx, proof,
-        rule="5 extensions x configuration grid (all 34x34 tupleSize/numberOfTuples pairs for new(); algorithms, shortObjectRoot, 27 delimiters, padding side, reversal, ill-typed and positional configs) x id pool (spec examples, percent-needing, 99/100/101-char encodings, 300-byte, shorter than the tuple width, delimiter repeated/at either end/case variants, length-changing case mappings, control chars, '/', '..', random); distinct = distinct (extension, config text, id, outcome class); plus system-level object directories")
+        rule="5 extensions x configuration grid (all 34x34 tupleSize/numberOfTuples pairs for new(); algorithms, shortObjectRoot, 27 delimiters, padding side, reversal, ill-typed, missing-parameter, missing-file and array configs) x id pool (spec examples, percent-needing, 99/100/101-char encodings, 300-byte, shorter than the tuple width, delimiter repeated/at either end/case variants, length-changing case mappings, control chars, '/', '..', random); distinct = distinct (extension, config text, id, outcome class); plus system-level object directories")
